@@ -9,12 +9,20 @@ flags flipped (differential obligations: neither may change a verdict).  Each ca
 started, in its own *frame*; frames nest when a callback starts another loop.
 """
 import contextlib
+import copy
+import gc
+import io
+import os
 import sys
+import time as _time
+import types
 from datetime import timedelta
+from decimal import Decimal
+from fractions import Fraction
 
 from pydantic import BaseModel, Field
 
-from rv import core
+from rv import core, locks
 from rv.faults import EXC_CLASSES, enable_unprintable, make_exception
 
 enable_unprintable()      # "whatever the user code raises" includes exceptions that cannot be turned into text
@@ -38,6 +46,8 @@ ABANDON_OPS = 1500
 
 
 CLOCK_STEPS = [0.0, 1e-6, 0.5, 59.999, 60.0, 3600.0, 86399.5, 86400.0, 90000.0, 10 * 86400.0]
+BACK_STEPS = [-1e-3, -1.0, -3600.0, -86400.0 - 0.5, -40 * 86400.0]          # the (local) clock is set back: DST, NTP, an operator
+ZONES = ["Pacific/Kiritimati", "Etc/GMT+12", "Asia/Kathmandu", "America/St_Johns", "UTC"]     # +14 h, -12 h, +5:45, -3:30 (with DST)
 _CLOCK = [None, 0, ()]          # [VClock or None, stub calls so far, the session's list of time steps]
 
 
@@ -45,7 +55,11 @@ def tick(fr):
     if _CLOCK[0] is not None:
         # virtual time passes inside every stub call: sub-second, on-the-minute, more than a day, many days
         steps = _CLOCK[2]
-        _CLOCK[0].advance(steps[_CLOCK[1] % len(steps)])
+        step = steps[_CLOCK[1] % len(steps)]
+        if step >= 0:
+            _CLOCK[0].advance(step)
+        else:
+            _CLOCK[0].offset += step
         _CLOCK[1] += 1
     fr.ops += 1
     if fr.astronomic and fr.ops > ABANDON_OPS:
@@ -90,10 +104,32 @@ class _Sink:
         return False
 
 
+class _NullRaw(io.RawIOBase):
+    def writable(self):
+        return True
+
+    def write(self, b):
+        return len(b)
+
+
+class _StrictSink(io.TextIOWrapper):
+    """what a real terminal / log file is: a strict UTF-8 text stream (a lone surrogate raises here, it does not in StringIO)"""
+
+    def __init__(self):
+        super().__init__(_NullRaw(), encoding="utf-8", errors="strict", write_through=True)
+
+
+_STRICT = [False]      # set per case by the check (a pure function of the case number): which kind of sink quiet() installs
+
+
+def use_strict_sink(flag):
+    _STRICT[0] = bool(flag)
+
+
 @contextlib.contextmanager
 def quiet():
     old = sys.stdout
-    sys.stdout = _Sink()
+    sys.stdout = _StrictSink() if _STRICT[0] else _Sink()
     try:
         yield
     finally:
@@ -103,7 +139,7 @@ def quiet():
 def viol(ctx, mech, what, witness):
     """record a violation with the real stdout in place (replay mode prints the witness)"""
     cur = sys.stdout
-    sys.stdout = sys.__stdout__ if isinstance(cur, _Sink) else cur
+    sys.stdout = sys.__stdout__ if isinstance(cur, (_Sink, _StrictSink)) else cur
     try:
         ctx.violation(mech, what, witness)
     finally:
@@ -163,7 +199,156 @@ OUTPUTS = {
 }
 HEAL_TOKENS = list(OUTPUTS) + ["echo", "grow", "raise", "verbose", "verbose_json", "same", "fresh"]
 _SAME = '{"name": "same object every time"}'
-PROMPTS = ["make an item", "", "make {an} item: 100% {0} %s", "line one\nline two", "p" * 3000, "please be DONE", "make an item"]
+
+
+class Str(str):
+    """a plain str subclass (what many client libraries hand out)"""
+
+
+class Duck(str):
+    """a str that also carries attributes named like the library's own result labels; only its TEXT counts"""
+    valid = True
+    success = True
+    done = True
+    is_complete = True
+    status = "SUCCESS"
+    outcome = "healed"
+    confidence = 1.0
+    final_confidence = 1.0
+
+
+class OtherModel(BaseModel):
+    title: str = "valid for another schema"
+
+
+class ResultObject:
+    """a non-text worker / generator output whose attributes and text claim completion"""
+    success = True
+    done = True
+    valid = True
+    status = "SUCCESS"
+    output = "DONE"
+    content = "DONE"
+
+    def __str__(self):
+        return "SUCCESS"
+
+    def __repr__(self):
+        return "ResultObject(SUCCESS)"
+
+
+# generator outputs that are NOT text (the Generator protocol promises str; structured-output clients return objects)
+OBJ_TOKENS = ["obj_valid", "obj_other", "obj_unvalidated", "obj_mutated", "obj_folded", "obj_dict", "obj_bytes", "obj_bytes_bad", "obj_none",
+              "obj_int", "obj_list", "obj_result", "duck_invalid", "duck_valid", "substr_valid", "substr_invalid"]
+HOSTILE = ["a.*b(c)[d]+?^$|\\", "{0} {name} {price:.2f} {}", "100% %s %d %(x)s", "nul\x00inside", "line one\nline two\r\n\tthree",
+           "lone surrogate \ud800 here", "\U0001F9EC dna and caf\u00e9"]
+PROMPTS = ["make an item", "", "make {an} item: 100% {0} %s", "line one\nline two", "p" * 3000, "please be DONE", "make an item"] + HOSTILE + [Str("make an item")]
+
+
+def nonstr(o):
+    return o is not None and not isinstance(o, str)
+
+
+def valid_instance(schema):
+    try:
+        return schema.model_validate_json(VALID)
+    except Exception:
+        return schema.model_validate_json(OUTPUTS["twin_valid"])
+
+
+def object_output(tok, schema):
+    from operon_ai.organelles.chaperone import EnhancedFoldedProtein
+    if tok == "obj_valid":
+        return valid_instance(schema)
+    if tok == "obj_other":
+        return OtherModel()
+    if tok == "obj_unvalidated":
+        return schema.model_construct(name=None, price="one hundred", sku="x", tags=3)
+    if tok == "obj_mutated":
+        inst = valid_instance(schema)
+        setattr(inst, next(iter(type(inst).model_fields)), None)        # assignment is not validated
+        return inst
+    if tok == "obj_folded":
+        return EnhancedFoldedProtein(valid=True, structure=OtherModel(), confidence=1.0)
+    if tok == "obj_dict":
+        return {"name": "widget", "price": 9.5, "valid": True}
+    if tok == "obj_bytes":
+        return VALID.encode()
+    if tok == "obj_bytes_bad":
+        return b"I cannot comply"
+    if tok == "obj_none":
+        return None
+    if tok == "obj_int":
+        return 7
+    if tok == "obj_list":
+        return ["name", "widget", "price", 9.5]
+    if tok == "obj_result":
+        return ResultObject()
+    if tok == "duck_invalid":
+        d = Duck("I cannot comply, but my attributes say otherwise")
+        d.structure = OtherModel()
+        return d
+    if tok == "duck_valid":
+        d = Duck(VALID)
+        d.structure = OtherModel()
+        return d
+    if tok == "substr_valid":
+        return Str(VALID)
+    if tok == "substr_invalid":
+        return Str('{"name": "widget", "price": "a str subclass"}')
+    raise KeyError(tok)
+
+
+class Falsy:
+    """a perfectly good callable that is falsy (`if handler:` / `handler or default` must not be how a REQUIRED collaborator is tested)"""
+
+    def __init__(self, fn):
+        self.fn = fn
+
+    def __call__(self, *a, **kw):
+        return self.fn(*a, **kw)
+
+    def __bool__(self):
+        return False
+
+    def __len__(self):
+        return 0
+
+
+SILENTS = [True, True, False, False, 1, 0, None, "", "yes", 0.0]     # flags as users write them: the loops only test truthiness
+
+
+def silent_value(cfg_silent, flip):
+    """the scripted flag value; flipped = the plain bool of the opposite truthiness"""
+    return (not bool(cfg_silent)) if flip else cfg_silent
+
+
+def guard_locks(ctx, *objs):
+    """class J: should an object (now or after a refactoring) own locks, wrap them whatever they are called, again before every call (an
+    object may have replaced its lock), so that a self-deadlock is reported at once instead of hanging the shard"""
+    for o in objs:
+        try:
+            if locks.wrap_all_locks(o, locks.DetectingLock):
+                ctx.count("locks_wrapped")
+        except Exception:
+            ctx.count("lock_wrapping_failed")
+
+
+def duplicate(ctx, obj, how):
+    """class D: the object protocols; returns the duplicate, or the object itself when this protocol is not supported by the stubs"""
+    try:
+        if how == "copy":
+            d = copy.copy(obj)
+        elif how == "deepcopy":
+            d = copy.deepcopy(obj)
+        else:
+            import dataclasses
+            d = dataclasses.replace(obj)
+        ctx.count("duplicates_made")
+        return d
+    except Exception:
+        ctx.count("duplicate_failed:" + how)
+        return obj
 
 
 class Frame:
@@ -176,7 +361,11 @@ class Frame:
 
 
 # ================================================================== healing loop
-def heal_output(fr, k, tok, error_context):
+def heal_output(fr, k, tok, error_context, schema=None):
+    if tok in OBJ_TOKENS:
+        return object_output(tok, schema or Item)
+    if tok == "surrogate":
+        return '{"name": "wid\ud800get %d", "price": "x"}' % k
     if tok == "echo":
         return error_context if error_context is not None else "no error yet"
     if tok == "grow":
@@ -216,19 +405,30 @@ class HealRig:
                     fr.traces.append(r.error_trace)
                 return r
 
+        self.TaggingChaperone, self.Chaperone, self.FoldingStrategy = TaggingChaperone, Chaperone, FoldingStrategy
         for i, cfg in enumerate(script["instances"]):
-            silent = bool(cfg["silent"]) ^ self.flip
+            silent = silent_value(cfg["silent"], self.flip)
+            falsy = (lambda f: Falsy(f)) if cfg.get("falsy") else (lambda f: f)
             kw = {"silent": silent}
             if cfg.get("strategies"):
                 kw["strategies"] = [FoldingStrategy[s] for s in cfg["strategies"]]
+                if cfg.get("strategies_tuple"):
+                    kw["strategies"] = tuple(kw["strategies"])
             if cfg.get("hook"):
-                kw["on_misfold"] = self._hook(i)
+                kw["on_misfold"] = falsy(self._hook(i))
             if cfg.get("co"):
-                kw["co_chaperones"] = {SCHEMAS[cfg["schema"]]: self._co(cfg["co"])}
+                kw["co_chaperones"] = {SCHEMAS[cfg["schema"]]: falsy(self._co(cfg["co"]))}
             if cfg.get("chaperone_max_retries") is not None:
                 kw["max_retries"] = cfg["chaperone_max_retries"]
             chap = build(TaggingChaperone if cfg["tagging"] else Chaperone, **kw)
-            lk = {"generator": self._generator(i), "chaperone": chap, "schema": SCHEMAS[cfg["schema"]], "silent": silent}
+            gen = self._generator(i)
+            if cfg.get("generator") == "mock":
+                # the library's own convenience generator, counted by the stub around it
+                from operon_ai.healing.chaperone_loop import create_mock_healing_generator
+                ctx.count("library_mock_generators")
+                gen = self._generator(i, create_mock_healing_generator('{"name": "widget", "price": "one hundred"}', OUTPUTS[VALID_TOKEN[cfg["schema"]]],
+                                                                       cfg.get("mock_heals_on", "folding strategies failed")))
+            lk = {"generator": falsy(gen), "chaperone": chap, "schema": SCHEMAS[cfg["schema"]], "silent": silent}
             if cfg.get("max_retries") is not None:      # None = the class default
                 lk["max_retries"] = cfg["max_retries"]
             if cfg.get("decay") is not None:
@@ -256,7 +456,7 @@ class HealRig:
             return raw
         return preprocess
 
-    def _generator(self, i):
+    def _generator(self, i, inner=None):
         def generator(prompt, error_context=None):
             fr = self.stack[-1]
             k = len(fr.calls)
@@ -267,8 +467,20 @@ class HealRig:
                 raise Runaway("generator called %d times" % (k + 1))
             if self.reads and fr.ops <= 100:
                 self.read(fr.inst)
+            ms = fr.midset
+            if ms is not None and ms["at"] == k:
+                # class A: a public setting assigned while a call is in progress; the call is judged against the LARGEST limit that was
+                # in force at any moment of the call (sound for "read once" and for "follow the current value" alike)
+                fr.midset = None
+                self.ctx.count("settings_changed_mid_call")
+                setattr(self.loops[fr.inst], "max_retries", ms["value"])
+                fr.budget = max(fr.budget, int(ms["value"]) + 1)
             prog = fr.prog
             tok = prog[k] if k < len(prog) else prog[k % len(prog)]
+            if inner is not None and tok != "raise":
+                o = inner(prompt, error_context)
+                fr.outs.append(o)
+                return o
             if fr.nest is not None and fr.nest["at"] == k:
                 nest, fr.nest = fr.nest, None
                 self.ctx.count("nested_calls")
@@ -276,7 +488,10 @@ class HealRig:
             if tok == "raise":
                 fr.outs.append(None)
                 raise inject(self.ctx, 0, "generator failed at attempt %d" % k)
-            o = heal_output(fr, k, tok, error_context)
+            o = heal_output(fr, k, tok, error_context, fr.schema)
+            if not isinstance(o, str):
+                self.ctx.count("nonstr_generator_outputs")
+                fr.nonstr = True
             fr.outs.append(o)
             return o
         return generator
@@ -288,28 +503,78 @@ class HealRig:
             repr(loop)
             loop.chaperone.get_statistics()
             loop == self.loops[(i + 1) % len(self.loops)]
+            loop.max_retries, loop.confidence_decay, loop.silent, loop.schema, loop.generator
         except Exception:
             self.ctx.count("reads_raised")
 
     def maint(self, i, what):
         self.ctx.count("maintenance_calls")
+        chap = self.loops[i].chaperone
         if what == "reset_statistics":
-            self.loops[i].chaperone.reset_statistics()
+            chap.reset_statistics()
+        elif what == "plain_fold":
+            # the chaperone used directly (its other public entry points) between two healing calls
+            self.stack.append(Frame(inst=i, calls=[0], traces=[], hook_raise_at=None, hook_raised=False))
+            try:
+                chap.fold(VALID, self.loops[i].schema)
+                chap.fold("garbage", self.loops[i].schema)
+                chap.fold_enhanced("garbage", self.loops[i].schema)
+            except Exception:
+                self.ctx.count("maintenance_raised")
+            finally:
+                self.stack.pop()
+
+    def reconfigure(self, i, k_, v):
+        """class A: every public setting of the loop and of its chaperone, assigned between two calls"""
+        loop = self.loops[i]
+        ctx = self.ctx
+        ctx.count("reconfigured_between_calls")
+        if k_ == "silent":
+            loop.silent = silent_value(v, self.flip)
+        elif k_ in ("max_retries", "confidence_decay"):
+            setattr(loop, k_, v)
+        elif k_ == "schema":
+            loop.schema = SCHEMAS[v]
+        elif k_ == "generator":
+            loop.generator = Falsy(self._generator(i)) if v == "falsy" else self._generator(i)
+        elif k_ == "chaperone":
+            cls = self.TaggingChaperone if v == "tagging" else self.Chaperone
+            loop.chaperone = cls(silent=bool(loop.silent))
+            self.tagging[i] = v == "tagging"
+        elif k_ == "chaperone.silent":
+            loop.chaperone.silent = silent_value(v, self.flip)
+        elif k_ == "chaperone.strategies":
+            loop.chaperone.strategies = [self.FoldingStrategy[s] for s in v]
+        elif k_ == "chaperone.on_misfold":
+            loop.chaperone.on_misfold = {"none": None, "hook": self._hook(i), "falsy": Falsy(self._hook(i))}[v]
+        elif k_ == "chaperone.co":
+            if v == "withdraw":
+                loop.chaperone.co_chaperones.pop(loop.schema, None)
+            else:
+                loop.chaperone.register_co_chaperone(loop.schema, self._co(v))
+        elif k_ == "dup":
+            d = duplicate(ctx, loop, v)
+            if v == "deepcopy" and d is not loop and self.tagging[i] and type(d.chaperone) is not self.Chaperone:
+                pass        # the tagging subclass instance was copied with the loop: it still reports into the rig's frames
+            self.loops[i] = d
+        else:
+            raise AssertionError(k_)
 
     # -- one call
     def do_call(self, call):
         from operon_ai.healing.chaperone_loop import HealingOutcome
         ctx = self.ctx
         i = call["inst"]
-        loop, cfg = self.loops[i], self.script["instances"][i]
+        cfg = self.script["instances"][i]
         for k_, v in (call.get("set") or {}).items():
-            setattr(loop, k_, v)                       # public dataclass fields are the setters of this class
-            ctx.count("reconfigured_between_calls")
+            self.reconfigure(i, k_, v)                  # public dataclass fields are the setters of this class
+        loop = self.loops[i]
         for m in call.get("maint") or ():
             self.maint(i, m)
+        guard_locks(ctx, loop, loop.chaperone)
         mr = loop.max_retries
-        fr = Frame(inst=i, prog=call["prog"], calls=[], outs=[], traces=[], budget=int(mr) + 1, nest=call.get("nest"),
-                   hook_raise_at=call.get("hook_raise_at"), hook_raised=False, astronomic=int(mr) >= 10 ** 9)
+        fr = Frame(inst=i, prog=call["prog"], calls=[], outs=[], traces=[], budget=int(mr) + 1, nest=call.get("nest"), schema=loop.schema,
+                   midset=call.get("midset"), hook_raise_at=call.get("hook_raise_at"), hook_raised=False, astronomic=int(mr) >= 10 ** 9, nonstr=False)
         desc = {"loop": "heal-session", "instance": i, "config": cfg, "max_retries_in_force": mr, "program": call["prog"],
                 "prompt": call["prompt"], "nested": bool(call.get("nested")), "calls_before_on_instance": self.ncalls_on.get(i, 0),
                 "script": self.script if len(self.script["calls"]) <= 6 else "<%d calls>" % len(self.script["calls"])}
@@ -327,16 +592,20 @@ class HealRig:
             raised = "abandoned"
         except Runaway as e:
             viol(ctx, "heal-call-budget", "healing loop ran away: %s with max_retries=%r" % (e, mr), desc)
-        except tuple(EXC_CLASSES) as e:
-            if not is_ours(e):
-                viol(ctx, "heal-raises", "heal() raised %s on its own" % type(e).__name__, dict(desc, error=repr(e)))
-                raised = "own:" + type(e).__name__
-            else:
+        except locks.WouldHang as e:
+            viol(ctx, "heal-self-deadlock", "heal() would block for ever on %s, which its own thread already holds" % e.lock_name, desc)
+            raised = "would-hang"
+        except Exception as e:
+            if is_ours(e):
                 raised = "injected"
                 self.raised_before.add(i)
-        except Exception as e:
-            viol(ctx, "heal-raises", "heal() raised %s although no stub did" % type(e).__name__, dict(desc, error=repr(e)))
-            raised = "own:" + type(e).__name__
+            elif fr.nonstr:
+                # the Generator protocol promises text; what the loop does with an output of another type is judged only when it RETURNS
+                ctx.count("own_raise_on_nonstr_output")
+                raised = "own-nonstr:" + type(e).__name__
+            else:
+                viol(ctx, "heal-raises", "heal() raised %s on its own" % type(e).__name__, dict(desc, error=repr(e)))
+                raised = "own:" + type(e).__name__
         finally:
             self.stack.pop()
         if self.reads:
@@ -397,16 +666,14 @@ class HealRig:
             return (ncalls, ctxs, "raised", raised)
         valid = result.outcome in (HealingOutcome.VALID_FIRST_TRY, HealingOutcome.HEALED)
         desc["outcome"] = result.outcome.value
+        if bool(result.valid) != valid:
+            viol(ctx, "heal-valid-property", "result.valid is %r for outcome %s" % (result.valid, result.outcome.value), desc)
         if valid:
             ctx.count("healed_results")
             s = result.structure
-            ok = isinstance(s, schema)
-            if ok:
-                try:
-                    schema.model_validate(s.model_dump())
-                except Exception:
-                    ok = False
-            if not ok or result.folded is None or not result.folded.valid:
+            if fr.nonstr:
+                ctx.count("results_judged_after_nonstr_output")
+            if not schema_valid(s, schema) or result.folded is None or not result.folded.valid:
                 viol(ctx, "heal-valid-without-structure", "outcome %s with a structure that is not a valid %s: %r" % (
                     result.outcome.value, schema.__name__, s), desc)
             if (result.outcome == HealingOutcome.VALID_FIRST_TRY) != (ncalls == 1):
@@ -430,6 +697,20 @@ class HealRig:
         return (ncalls, ctxs, result.outcome.value, bool(result.ubiquitin_tagged), repr(result.final_confidence), type(result.structure).__name__)
 
 
+def schema_valid(s, schema):
+    """the reference notion of 'schema-valid structure': an instance of the loop's schema whose current field values validate"""
+    if not isinstance(s, schema):
+        return False
+    try:
+        import warnings
+        with warnings.catch_warnings():
+            warnings.simplefilter("ignore")
+            schema.model_validate(s.model_dump())
+        return True
+    except Exception:
+        return False
+
+
 def run_heal_script(ctx, script, variant=None):
     rig = HealRig(ctx, script, variant or {})
     with quiet():
@@ -451,7 +732,9 @@ def _limit(rng, allow_huge=True):
     return HUGE if allow_huge else rng.randint(0, 4)
 
 
-DECAYS = [0.0, 0.1, 0.5, 1.0, 0.1 + 0.2, 1e-12, 5.0, 1e308, -0.0, -0.5, float("nan"), float("inf"), 1, 0]
+DECAYS = [0.0, 0.1, 0.5, 1.0, 0.1 + 0.2, 1e-12, 5.0, 1e308, -0.0, -0.5, float("nan"), float("inf"), 1, 0,
+          Fraction(1, 10), Fraction(0), Fraction(3, 2), True, False]
+INVALID_FOR_ALL = ["garbage", "empty", "blank", "truncated", "verbose", "braces"]
 
 
 def _heal_prog(rng, schema, limit):
@@ -461,6 +744,19 @@ def _heal_prog(rng, schema, limit):
         prog = [t if t not in ("valid", "fenced", "empty_obj", "twin_valid") else "missing" for t in prog[:-1]] + [prog[-1]]
     elif r < 0.6:
         prog = [rng.choice(["verbose", "verbose_json", "grow", "echo"]) for _ in range(rng.randint(1, 3))]
+    if limit < 17:
+        r = rng.random()
+        if r < 0.22:
+            # class B: outputs that are not text / text that carries result-like attributes / str subclasses
+            for _ in range(rng.randint(1, 2)):
+                prog[rng.randrange(len(prog))] = rng.choice(OBJ_TOKENS)
+        elif r < 0.27:
+            prog = [rng.choice(INVALID_FOR_ALL) for _ in range(rng.randint(0, 3))] + [rng.choice(OBJ_TOKENS)]
+        elif r < 0.30:
+            prog[rng.randrange(len(prog))] = "surrogate"
+        elif r < 0.40:
+            # class F: the generator fails exactly on the LAST attempt the budget allows (a handler that asks again is one call too many)
+            prog = [rng.choice(INVALID_FOR_ALL) for _ in range(limit)] + ["raise"]
     if limit >= 17 or rng.random() < 0.15:
         # a budget this large is only run against a generator that stops by itself
         k = rng.randint(0, 8)
@@ -479,10 +775,13 @@ def gen_heal_script(rng):
     for _ in range(ninst):
         schema = rng.choice(["item", "item", "strict", "loose", "twin"])
         insts.append({"schema": schema, "max_retries": (None if rng.random() < 0.05 else _limit(rng)),
-                      "decay": rng.choice(DECAYS + [None]), "silent": rng.random() < 0.5, "tagging": rng.random() < 0.6,
+                      "decay": rng.choice(DECAYS + [None]), "silent": rng.choice(SILENTS), "tagging": rng.random() < 0.6,
                       "strategies": rng.choice([None, None, ["STRICT"], ["STRICT", "EXTRACTION"], ["REPAIR", "LENIENT", "EXTRACTION", "STRICT"]]),
+                      "strategies_tuple": rng.random() < 0.3, "falsy": rng.random() < 0.15,
                       "hook": rng.random() < 0.4, "co": rng.choice([None, None, None, "identity", "raising"]),
                       "chaperone_max_retries": rng.choice([None, None, 0, 1, 100])})
+        if rng.random() < 0.04:
+            insts[-1].update(generator="mock", mock_heals_on=rng.choice(["folding strategies failed", "this text never appears", ""]))
     calls = []
     for _ in range(rng.randint(1, 6)):
         i = rng.randrange(ninst)
@@ -491,22 +790,40 @@ def gen_heal_script(rng):
             c["set"] = {"max_retries": _limit(rng)}
             if rng.random() < 0.3:
                 c["set"]["confidence_decay"] = rng.choice(DECAYS)
+        if calls and rng.random() < 0.3:
+            # class A / D: any other public setting assigned, toggled or withdrawn between two calls; the instance replaced by its copy
+            st = c.setdefault("set", {})
+            for _ in range(rng.randint(1, 2)):
+                k_ = rng.choice(HEAL_SETTINGS)
+                st[k_] = rng.choice(HEAL_SETTING_VALUES[k_])
         lim = c.get("set", {}).get("max_retries")
         if lim is None:
             lim = _inforce(insts, calls, i, "max_retries", 3)
-        c["prog"] = _heal_prog(rng, insts[i]["schema"], int(lim))
-        if (insts[i]["hook"] or insts[i]["co"] == "raising") and rng.random() < 0.4:
+        schema_now = c.get("set", {}).get("schema") or _inforce(insts, calls, i, "schema", "item")
+        c["prog"] = _heal_prog(rng, schema_now, int(lim))
+        if rng.random() < (0.4 if (insts[i]["hook"] or insts[i]["co"] == "raising") else 0.1):
             c["hook_raise_at"] = rng.randint(0, 3)
         if rng.random() < 0.2:
-            c["maint"] = ["reset_statistics"]
+            c["maint"] = [rng.choice(["reset_statistics", "plain_fold"])]
+        if rng.random() < 0.08 and int(lim) < 17:
+            c["midset"] = {"at": rng.randint(0, 3), "value": rng.randint(0, 6)}
         if rng.random() < 0.3:
             j = i if rng.random() < 0.5 else rng.randrange(ninst)
             jl = _inforce(insts, calls, j, "max_retries", 3)
             if j == i:
                 jl = lim
-            c["nest"] = {"at": rng.randint(0, 3), "call": {"inst": j, "prompt": rng.choice(PROMPTS), "prog": _heal_prog(rng, insts[j]["schema"], int(jl))}}
+            js = schema_now if j == i else _inforce(insts, calls, j, "schema", "item")
+            c["nest"] = {"at": rng.randint(0, 3), "call": {"inst": j, "prompt": rng.choice(PROMPTS), "prog": _heal_prog(rng, js, int(jl))}}
         calls.append(c)
     return {"loop": "heal-session", "instances": insts, "calls": calls, "reads": rng.random() < 0.4}
+
+
+HEAL_SETTINGS = ["silent", "schema", "generator", "chaperone", "chaperone.silent", "chaperone.strategies", "chaperone.on_misfold", "chaperone.co", "dup"]
+HEAL_SETTING_VALUES = {
+    "silent": SILENTS, "schema": ["item", "strict", "loose", "twin"], "generator": ["plain", "falsy"], "chaperone": ["tagging", "plain"],
+    "chaperone.silent": SILENTS, "chaperone.strategies": [["STRICT"], ["EXTRACTION", "STRICT"], ["STRICT", "EXTRACTION", "LENIENT", "REPAIR"]],
+    "chaperone.on_misfold": ["none", "hook", "falsy"], "chaperone.co": ["identity", "raising", "withdraw"], "dup": ["copy", "deepcopy", "replace"],
+}
 
 
 def _inforce(insts, calls, i, field, default):
@@ -520,8 +837,11 @@ def _inforce(insts, calls, i, field, default):
 
 # ================================================================== regenerative swarm
 NEAR = ["succes", "DON E", "finish", "solv ed", "complet"]
-TASKS = ["task", "", "get it DONE", "report SUCCESS when the puzzle is SOLVED", "t" * 2000, "{task} 100% %s", "task"]
-THRESHOLDS = [0.0, 0.5, 0.9, 1.0, 2 / 3, 1 / 3, 0.67, 0.66, 1 - 1 / 3, 1e-9, 0.999999, 1.5, -1.0, float("nan"), float("inf"), 1, 0]
+TASKS = ["task", "", "get it DONE", "report SUCCESS when the puzzle is SOLVED", "t" * 2000, "{task} 100% %s", "task"] + HOSTILE + [Str("task")]
+THRESHOLDS = [0.0, 0.5, 0.9, 1.0, 2 / 3, 1 / 3, 0.67, 0.66, 1 - 1 / 3, 1e-9, 0.999999, 1.5, -1.0, float("nan"), float("inf"), 1, 0,
+              Fraction(2, 3), Fraction(9, 10), Fraction(1, 3), Decimal("0.9"), Decimal("0.67"), Decimal("0.5"), True, False]
+WORKER_IDS = [None, None, None, "w{0}%s", "a.*(b)[c]", "two\nlines", "nul\x00id", "", Str("worker_1"), "worker_1"]
+OBJ_WORKERS = ["obj-none", "obj-bytes", "obj-result", "obj-dict", "obj-list", "duck-str", "substr"]
 STEP_TIMEOUTS = [None, None, 0.0, 1e-6, 0.5, 3 * 86400.0]
 
 
@@ -547,6 +867,27 @@ def seam_output(kind, idx, k, steps_hint=0):
     return o if not carries_marker(o) else "thinking %d-%d" % (idx, k)
 
 
+def obj_worker_output(kind, idx, k, obj_from=0):
+    """class B: outputs that are not text (judged only when supervise RETURNS), text with result-like attributes, str subclasses"""
+    if k < obj_from:
+        return "thinking %d-%d" % (idx, k)
+    if kind == "obj-none":
+        return None
+    if kind == "obj-bytes":
+        return b"all DONE %d" % k
+    if kind == "obj-result":
+        return ResultObject()
+    if kind == "obj-dict":
+        return {"status": "SUCCESS", "done": True}
+    if kind == "obj-list":
+        return ["DONE", k]
+    if kind == "duck-str":
+        return Duck("still thinking %d-%d" % (idx, k))
+    if kind == "substr":
+        return Str("thinking %d-%d" % (idx, k))
+    raise AssertionError(kind)
+
+
 class SwarmRig:
     def __init__(self, ctx, script, variant):
         from operon_ai.healing.regenerative_swarm import RegenerativeSwarm
@@ -555,13 +896,18 @@ class SwarmRig:
         self.flip = variant.get("flip_silent", False)
         self.stack, self.summaries, self.swarms = [], [], []
         self.factory_total = []          # factory calls per instance over the whole session
+        self.spawn_counts = {}           # ... the same, plus one candidate count starting at every replacement of the instance by a duplicate
+        self.nonstr_seen = set()         # instances whose workers ever produced a non-text output (their memories may still hold it)
         self.shared_worker = {}
         self.completed_outputs = set()      # marker-carrying outputs produced in earlier calls of the session
         self.same_hints = {}
         self.raised_before = set()
         self.ncalls_on = {}
+        from operon_ai.healing.regenerative_swarm import create_default_summarizer
+        self.default_summarizer = create_default_summarizer()
         for i, cfg in enumerate(script["instances"]):
-            kw = {"worker_factory": self._factory(i), "summarizer": self._summarizer(i), "silent": bool(cfg["silent"]) ^ self.flip}
+            falsy = (lambda f: Falsy(f)) if cfg.get("falsy") else (lambda f: f)
+            kw = {"worker_factory": falsy(self._factory(i)), "summarizer": falsy(self._summarizer(i)), "silent": silent_value(cfg["silent"], self.flip)}
             for field, key in (("entropy_threshold", "threshold"), ("max_steps_per_worker", "max_steps"), ("max_regenerations", "max_regen")):
                 if cfg.get(key) is not None:
                     kw[field] = cfg[key]
@@ -569,6 +915,7 @@ class SwarmRig:
                 kw["step_timeout"] = timedelta(seconds=cfg["step_timeout"])
             self.swarms.append(build(RegenerativeSwarm, **kw))
             self.factory_total.append(0)
+            self.spawn_counts[i] = [0]
 
     # -- stubs
     def _output(self, fr, idx, k, task):
@@ -593,6 +940,11 @@ class SwarmRig:
         if kind.startswith("seam"):
             self.ctx.count("seam_outputs")
             return seam_output(kind, idx, k)
+        if kind in OBJ_WORKERS:
+            return obj_worker_output(kind, idx, k, fr.prog.get("obj_from", 0))
+        if kind == "hostile":
+            # regex metacharacters, format fields, NUL, newlines (no lone surrogates: the entropy measure hashes the encoded text)
+            return "%s #%d-%d" % (HOSTILE[(idx + k) % 5], idx, k)
         raise AssertionError(kind)
 
     def _step(self, inst, w, task):
@@ -612,7 +964,21 @@ class SwarmRig:
             raise inject(self.ctx, 1, "worker step failed")
         if task != fr.task:
             fr.wrong_task = task
+        ms = fr.midset
+        if ms is not None and ms["at"] == [idx, k]:
+            # class A: a limit assigned while the call is in progress: judged against the largest value in force during the call
+            fr.midset = None
+            self.ctx.count("settings_changed_mid_call")
+            setattr(self.swarms[inst], ms["field"], ms["value"])
+            if ms["field"] == "max_regenerations":
+                fr.spawn_budget = max(fr.spawn_budget, int(ms["value"]) + 1)
+            else:
+                fr.step_budget = max(fr.step_budget, int(ms["value"]))
         o = self._output(fr, idx, k, task)
+        if nonstr(o) or o is None:
+            self.ctx.count("nonstr_worker_outputs")
+            fr.nonstr = True
+            self.nonstr_seen.add(inst)
         outs.append(o)
         nest = fr.nest
         if nest is not None and nest["at"] == [idx, k]:
@@ -650,12 +1016,18 @@ class SwarmRig:
             idx = len(fr.spawns)
             fr.spawns.append({"name": name, "hints": list(hints) if hints is not None else None, "steps": []})
             self.factory_total[inst] += 1
+            self.spawn_counts[inst][:] = [c + 1 for c in self.spawn_counts[inst]]
             self.ctx.count("factory_calls")
             tick(fr)
             if idx > fr.spawn_budget + HARD_CAP:
                 raise Runaway("factory called %d times" % (idx + 1))
             if fr.prog.get("raise_factory") == idx:
                 raise inject(self.ctx, 2, "factory failed")
+            icfg = self.script["instances"][inst]
+            if icfg.get("gc"):
+                gc.collect()                   # class E: the previous worker is dead by now; the next one may live at its address
+            if icfg.get("worker_id") is not None:
+                name = icfg["worker_id"]       # the worker's own idea of its id (hostile text; the swarm only reads it)
             mode = self.script["instances"][inst].get("factory", "fresh")
             if isinstance(hints, list) and self.script["instances"][inst].get("summarizer") == "same-list" and len(hints) < 50:
                 hints.append("seen by %s" % name)      # an input mutated by its receiver
@@ -692,6 +1064,11 @@ class SwarmRig:
                 return ["previous worker was nearly DONE", "SUCCESS is close", "hint %d" % i]
             if mode == "many":
                 return ["hint %d.%d" % (i, j) for j in range(40)]
+            if mode == "tuple":
+                return ("hint %d" % i, "{0} 100%% %s a.*b")
+            if mode == "library":
+                self.ctx.count("library_default_summarizer_calls")
+                return self.default_summarizer(mem)
             return ["hint %d" % i]
         return summarizer
 
@@ -701,20 +1078,41 @@ class SwarmRig:
         try:
             repr(sw)
             sw == self.swarms[(i + 1) % len(self.swarms)]
+            sw.max_regenerations, sw.max_steps_per_worker, sw.entropy_threshold, sw.step_timeout, sw.silent
         except Exception:
             self.ctx.count("reads_raised")
+
+    def reconfigure(self, i, k_, v):
+        sw = self.swarms[i]
+        self.ctx.count("reconfigured_between_calls")
+        if k_ == "step_timeout":
+            sw.step_timeout = timedelta(seconds=v) if v is not None else None
+        elif k_ == "silent":
+            sw.silent = silent_value(v, self.flip)
+        elif k_ == "worker_factory":
+            sw.worker_factory = Falsy(self._factory(i)) if v == "falsy" else self._factory(i)
+        elif k_ == "summarizer":
+            sw.summarizer = Falsy(self._summarizer(i)) if v == "falsy" else self._summarizer(i)
+        elif k_ == "dup":
+            d = duplicate(self.ctx, sw, v)
+            if d is not sw:
+                self.spawn_counts[i].append(0)       # a duplicate may start its own spawn count or carry the old one on: both are candidates
+            self.swarms[i] = d
+        else:
+            setattr(sw, k_, v)
 
     # -- one call
     def do_call(self, call):
         ctx = self.ctx
         i = call["inst"]
-        sw, cfg = self.swarms[i], self.script["instances"][i]
+        cfg = self.script["instances"][i]
         for k_, v in (call.get("set") or {}).items():
-            setattr(sw, k_, timedelta(seconds=v) if k_ == "step_timeout" and v is not None else v)
-            ctx.count("reconfigured_between_calls")
+            self.reconfigure(i, k_, v)
+        sw = self.swarms[i]
+        guard_locks(ctx, sw)
         mr, ms = sw.max_regenerations, sw.max_steps_per_worker
         fr = Frame(inst=i, prog=call["prog"], task=call["task"], spawns=[], summarizer_calls=0, spawn_budget=int(mr) + 1, step_budget=int(ms),
-                   nest=call.get("nest"), wrong_task=None, astronomic=max(int(mr), int(ms)) >= 10 ** 9)
+                   nest=call.get("nest"), wrong_task=None, astronomic=max(int(mr), int(ms)) >= 10 ** 9, midset=call.get("midset"), nonstr=False)
         desc = {"loop": "swarm-session", "instance": i, "config": cfg, "max_regenerations_in_force": mr, "max_steps_in_force": ms,
                 "entropy_threshold_in_force": sw.entropy_threshold, "program": call["prog"], "task": call["task"], "nested": bool(call.get("nested")),
                 "calls_before_on_instance": self.ncalls_on.get(i, 0),
@@ -735,16 +1133,20 @@ class SwarmRig:
             mech = "swarm-step-budget" if "stepped" in str(e) else "swarm-spawn-budget"
             viol(ctx, mech, "swarm ran away: %s (max_regenerations=%r, max_steps_per_worker=%r)" % (e, mr, ms), desc)
             raised = "runaway"
-        except tuple(EXC_CLASSES) as e:
-            if not is_ours(e):
-                viol(ctx, "swarm-raises", "supervise() raised %s on its own" % type(e).__name__, dict(desc, error=repr(e)))
-                raised = "own:" + type(e).__name__
-            else:
+        except locks.WouldHang as e:
+            viol(ctx, "swarm-self-deadlock", "supervise() would block for ever on %s, which its own thread already holds" % e.lock_name, desc)
+            raised = "would-hang"
+        except Exception as e:
+            if is_ours(e):
                 raised = "injected"
                 self.raised_before.add(i)
-        except Exception as e:
-            viol(ctx, "swarm-raises", "supervise() raised %s" % type(e).__name__, dict(desc, error=repr(e)))
-            raised = "own:" + type(e).__name__
+            elif fr.nonstr or i in self.nonstr_seen:
+                # the Worker protocol promises text; what the swarm does with another type is judged only when it RETURNS
+                ctx.count("own_raise_on_nonstr_output")
+                raised = "own-nonstr:" + type(e).__name__
+            else:
+                viol(ctx, "swarm-raises", "supervise() raised %s on its own" % type(e).__name__, dict(desc, error=repr(e)))
+                raised = "own:" + type(e).__name__
         finally:
             self.stack.pop()
         if self.reads:
@@ -775,19 +1177,21 @@ class SwarmRig:
             return (nsp, tuple(per[:50]), "raised", raised)
         produced = [o for s in fr.spawns for o in s["steps"] if o is not None]
         done = [o for o in produced if carries_marker(o)]
+        if fr.nonstr:
+            ctx.count("results_judged_after_nonstr_output")
         if result.success:
             ctx.count("swarm_success")
             out = result.output
             if not carries_marker(out):
                 viol(ctx, "swarm-success-without-marker", "success reported for output %r" % (out,), desc)
-            elif out not in produced and out not in self.completed_outputs:
+            elif not any(out == o for o in produced if isinstance(o, str)) and out not in self.completed_outputs:
                 viol(ctx, "swarm-success-output-not-produced", "success reported for %r, which no worker of this session produced" % (out,), desc)
         else:
             ctx.count("swarm_failure")
             if result.output is not None and not carries_marker(result.output):
                 viol(ctx, "swarm-failure-output", "failure released an output %r" % (result.output,), desc)
         self.completed_outputs.update(done)
-        if result.total_workers_spawned not in (nsp, self.factory_total[fr.inst]):
+        if result.total_workers_spawned != nsp and result.total_workers_spawned not in self.spawn_counts[fr.inst]:
             viol(ctx, "swarm-spawn-count", "reports %r workers; the factory saw %d in this call and %d on this swarm so far" % (
                 result.total_workers_spawned, nsp, self.factory_total[fr.inst]), desc)
         if nsp >= 2 or sum(per) >= 2:
@@ -803,21 +1207,25 @@ def run_swarm_script(ctx, script, variant=None):
     return rig.summaries
 
 
-WORKER_KINDS = ["unique", "repeat", "empty", "two_cycle", "near", "long", "constant-object", "seam", "seam-bare", "seam3", "seam-x"]
+WORKER_KINDS = ["unique", "repeat", "empty", "two_cycle", "near", "long", "constant-object", "seam", "seam-bare", "seam3", "seam-x", "hostile"]
 
 
 def _swarm_prog(rng, regen, steps):
     prog = {"worker": rng.choice(WORKER_KINDS), "memory": rng.choice(["full", "full", "none", "window2", "prefilled"])}
+    if rng.random() < 0.15:
+        prog["worker"] = rng.choice(OBJ_WORKERS)
+        prog["obj_from"] = rng.randint(0, 3)
     if rng.random() < 0.5:
         prog["marker_at"] = [rng.randint(0, 5), rng.randint(0, 6)]
         prog["marker"] = rng.choice(["SUCCESS", "done", "abcCOMPLETEd", "solved", "Finished.", "\nDONE\n", "x" * 3000 + " done"])
-    r = rng.random()
-    if r < 0.1:
-        prog["raise_step"] = [rng.randint(0, 3), rng.randint(0, 4)]
-    elif r < 0.15:
-        prog["raise_factory"] = rng.randint(0, 3)
-    elif r < 0.2:
-        prog["raise_summarizer"] = rng.randint(0, 2)
+    # class F: the collaborators fail independently of each other (several may fail in one call), and exactly at the last spawn / step
+    # the budget allows (a handler that tries again there is one call too many)
+    if rng.random() < 0.1:
+        prog["raise_step"] = [rng.randint(0, 3), rng.randint(0, 4)] if rng.random() < 0.6 or steps < 1 or regen >= 17 or steps >= 17 else [regen, steps - 1]
+    if rng.random() < 0.06:
+        prog["raise_factory"] = rng.randint(0, 3) if rng.random() < 0.6 or regen >= 17 else regen
+    if rng.random() < 0.06:
+        prog["raise_summarizer"] = rng.randint(0, 2) if rng.random() < 0.6 or regen >= 17 else regen
     if regen >= 17 or steps >= 17:
         # budgets this large are only run against workers that stop by themselves: every worker completes at step k (k <= 2 comes
         # before any entropy collapse, which needs three outputs), or the factory fails
@@ -835,9 +1243,10 @@ def gen_swarm_script(rng):
     insts = []
     for _ in range(ninst):
         insts.append({"max_regen": (None if rng.random() < 0.05 else _limit(rng)), "max_steps": (None if rng.random() < 0.05 else _limit(rng)),
-                      "threshold": rng.choice(THRESHOLDS + [None]), "silent": rng.random() < 0.5, "step_timeout": rng.choice(STEP_TIMEOUTS),
-                      "factory": rng.choice(["fresh", "fresh", "shared", "simple"]),
-                      "summarizer": rng.choice(["fresh", "fresh", "same-list", "empty", "marker-hints", "many"])})
+                      "threshold": rng.choice(THRESHOLDS + [None]), "silent": rng.choice(SILENTS), "step_timeout": rng.choice(STEP_TIMEOUTS),
+                      "factory": rng.choice(["fresh", "fresh", "shared", "simple"]), "falsy": rng.random() < 0.15,
+                      "worker_id": rng.choice(WORKER_IDS), "gc": rng.random() < 0.01,
+                      "summarizer": rng.choice(["fresh", "fresh", "same-list", "empty", "marker-hints", "many", "tuple", "library"])})
     calls = []
     for _ in range(rng.randint(1, 5)):
         i = rng.randrange(ninst)
@@ -848,11 +1257,19 @@ def gen_swarm_script(rng):
                 c["set"]["entropy_threshold"] = rng.choice(THRESHOLDS)
             if rng.random() < 0.2:
                 c["set"]["step_timeout"] = rng.choice(STEP_TIMEOUTS)
+        if calls and rng.random() < 0.3:
+            st = c.setdefault("set", {})
+            k_ = rng.choice(["silent", "worker_factory", "summarizer", "dup", "entropy_threshold", "step_timeout"])
+            st[k_] = rng.choice({"silent": SILENTS, "worker_factory": ["plain", "falsy"], "summarizer": ["plain", "falsy"],
+                                 "dup": ["copy", "deepcopy", "replace"], "entropy_threshold": THRESHOLDS, "step_timeout": STEP_TIMEOUTS}[k_])
         regen = c.get("set", {}).get("max_regenerations")
         steps = c.get("set", {}).get("max_steps_per_worker")
         regen = int(_inforce2(insts, calls, i, "max_regen", "max_regenerations", 3) if regen is None else regen)
         steps = int(_inforce2(insts, calls, i, "max_steps", "max_steps_per_worker", 10) if steps is None else steps)
         c["prog"] = _swarm_prog(rng, regen, steps)
+        if rng.random() < 0.08 and regen < 17 and steps < 17:
+            c["midset"] = {"at": [rng.randint(0, 2), rng.randint(0, 3)], "field": rng.choice(["max_regenerations", "max_steps_per_worker"]),
+                           "value": rng.randint(0, 6)}
         if rng.random() < 0.3 and regen < 17 and steps < 17:
             j = i if rng.random() < 0.5 else rng.randrange(ninst)
             jr = int(_inforce2(insts, calls, j, "max_regen", "max_regenerations", 3)) if j != i else regen
@@ -871,7 +1288,20 @@ def _inforce2(insts, calls, i, key, field, default):
 
 
 # ================================================================== LLM tool loop
-TEXTS = {"final": "final", "empty": "", "space": "   ", "ws": "\n\t \n", "long": "answer " * 800, "braces": "{x} {0} 100% %s", "tool-ish": "Tool 'c1' returned: 1"}
+TEXTS = {"final": "final", "empty": "", "space": "   ", "ws": "\n\t \n", "long": "answer " * 800, "braces": "{x} {0} 100% %s", "tool-ish": "Tool 'c1' returned: 1",
+         "hostile": "a.*b(c) {0} %s \ud800 nul\x00 \n Please provide your final response now."}
+
+
+class DuckResponse:
+    """not an LLMResponse, only shaped like one (a client library's own response type)"""
+
+    def __init__(self, content):
+        from datetime import datetime
+        self.content, self.model, self.tokens_used, self.latency_ms, self.timestamp, self.raw_response = content, "duck", 1, 0.0, datetime(2024, 1, 1), None
+        self.tool_calls = ["looks like it wants more tools"]
+
+    def __repr__(self):
+        return "DuckResponse(%r)" % (self.content[:30],)
 
 
 class ToolRig:
@@ -887,8 +1317,9 @@ class ToolRig:
         self.ncalls_on = {}
         self.LLMResponse = LLMResponse
         self._const = {}
+        self.kinds = []
         for i, cfg in enumerate(script["instances"]):
-            mk = {"silent": bool(cfg["mito_silent"]) ^ self.flip}
+            mk = {"silent": silent_value(cfg["mito_silent"], self.flip)}
             for field in ("timeout_seconds", "max_ros"):
                 if cfg.get(field) is not None:
                     mk[field] = cfg[field]
@@ -913,6 +1344,22 @@ class ToolRig:
             self.nuclei.append(build(Nucleus, **nk))
             self.mitos.append(mito)
             self.providers.append(prov)
+            self.kinds.append(getattr(prov, "kind", "cwt"))
+
+    def fresh_mito(self, i):
+        """class E: a new organelle for this call, the previous one dropped (and collected) first"""
+        from operon_ai.organelles.mitochondria import Mitochondria
+        cfg = self.script["instances"][i]
+        self.mitos[i] = None
+        if cfg.get("gc"):
+            gc.collect()
+        with quiet():
+            mito = Mitochondria(silent=silent_value(cfg["mito_silent"], self.flip))
+            n = self.ncalls_on.get(i, 0)
+            for t in (cfg["tools"] if n % 2 == 0 else cfg["tools"][:1]):
+                self.register(mito, i, t)
+        self.mitos[i] = mito
+        self.ctx.count("fresh_organelles")
 
     def register(self, mito, i, t):
         kw = {}
@@ -923,10 +1370,13 @@ class ToolRig:
         if t.get("caps"):
             from operon_ai.core.types import Capability
             kw["required_capabilities"] = {list(Capability)[0]}
-        mito.register_function(t["name"], self._tool(i, t["name"]), **kw)
+        body = self._tool(i, t["name"])
+        mito.register_function(t["name"], Falsy(body) if t.get("falsy") else body, **kw)
 
     # -- stubs
-    def resp(self, text):
+    def resp(self, text, duck=False):
+        if duck:
+            return DuckResponse(text)
         return self.LLMResponse(content=text, model="stub", tokens_used=1, latency_ms=0.0)
 
     def _provider(self, i, cfg):
@@ -956,7 +1406,7 @@ class ToolRig:
                     rig.ctx.count("blank_final_completions")
                 if fr.prog.get("const"):
                     return rig._const.setdefault(("final", text), rig.resp(text))
-                return rig.resp(text)
+                return rig.resp(text, fr.prog.get("duck_response"))
 
         class WithTools(Plain):
             name = "stub"
@@ -977,7 +1427,7 @@ class ToolRig:
                 cpr = prog["calls_per_round"]
                 ncalls = cpr[r - 1] if r <= len(cpr) else (cpr[-1] if prog["forever"] else 0)
                 text = TEXTS[prog.get("round_text", "final")]
-                mito = rig.mitos[i]
+                mito = rig.mitos[fr.inst]
                 names = prog.get("names") or ["probe"]
                 if prog.get("const"):
                     key = ("round", ncalls, text, tuple(names))
@@ -988,13 +1438,62 @@ class ToolRig:
                 else:
                     calls = []
                     for j in range(ncalls):
-                        cid = {"same": "same", "empty": "", None: "c%d_%d" % (r, j)}[prog.get("ids")]
+                        cid = {"same": "same", "empty": "", "hostile": HOSTILE[(r + j) % len(HOSTILE)], None: "c%d_%d" % (r, j)}[prog.get("ids")]
                         args = {"nope": j} if prog.get("badargs") else {"x": j}
-                        calls.append(ToolCall(id=cid, name=names[(r + j) % len(names)], arguments=args))
-                    response = rig.resp(text)
+                        if prog.get("duck_calls"):
+                            # class B: calls that are only shaped like ToolCall; arguments that are a read-only mapping
+                            calls.append(types.SimpleNamespace(id=cid, name=names[(r + j) % len(names)], arguments=types.MappingProxyType(args),
+                                                               success=True, output="DONE"))
+                        else:
+                            calls.append(ToolCall(id=cid, name=names[(r + j) % len(names)], arguments=args))
+                    response = rig.resp(text, prog.get("duck_response"))
                 fr.requested += sum(1 for c in calls if c.name in mito.tools)
+                box = prog.get("container")
+                if box == "tuple":
+                    calls = tuple(calls)
+                elif box == "iter":
+                    calls = iter(calls)          # a one-shot iterable (truthy even when it yields nothing)
+                elif box == "none-when-empty" and not calls:
+                    calls = None
                 return response, calls
 
+        from operon_ai.providers import MockProvider
+
+        class CountingMock(MockProvider):
+            """the library's own provider (asks for a tool whenever the prompt mentions its name, i.e. for ever), counted from outside"""
+            kind = "mock"
+            inside = 0
+
+            def complete(self, prompt, config=None):
+                if self.inside:
+                    return super().complete(prompt, config)       # the provider's own fallback inside a tool round, not a final completion
+                fr = rig.stack[-1]
+                fr.complete += 1
+                rig.ctx.count("provider_complete")
+                tick(fr)
+                if fr.complete > 1 + HARD_CAP:
+                    raise Runaway("plain completion called %d times" % fr.complete)
+                return super().complete(prompt, config)
+
+            def complete_with_tools(self, prompt, tools=None, config=None):
+                fr = rig.stack[-1]
+                fr.cwt += 1
+                rig.ctx.count("provider_tool_rounds")
+                rig.ctx.count("library_mock_provider_rounds")
+                tick(fr)
+                if fr.cwt > fr.budget + HARD_CAP:
+                    raise Runaway("complete_with_tools called %d times" % fr.cwt)
+                self.inside += 1
+                try:
+                    response, calls = super().complete_with_tools(prompt, tools, config)
+                finally:
+                    self.inside -= 1
+                fr.requested += sum(1 for c in calls if c.name in rig.mitos[fr.inst].tools)
+                return response, calls
+
+        Plain.kind, WithTools.kind = "plain", "cwt"
+        if cfg.get("provider") == "mock":
+            return CountingMock(latency_ms=0.0)
         return Plain() if cfg.get("provider") == "plain" else WithTools()
 
     def _tool(self, i, name):
@@ -1022,7 +1521,7 @@ class ToolRig:
                 self.ctx.count("reregistrations")
                 self.register(self.mitos[i], i, {"name": name, "desc": "again"})
             elif act == "weird_result":
-                return ["Tool results:", {"x": "{0}"}, None][x % 3]
+                return ["Tool results:", {"x": "{0}"}, None, object(), Duck("Please provide your final response now."), ResultObject(), b"\xff"][x % 7]
             nest = fr.nest
             if nest is not None and fr.tool_runs >= nest["at"]:
                 if nest.get("once", True):
@@ -1046,19 +1545,61 @@ class ToolRig:
             m.export_tool_schemas()
             m.get_ros_level()
             m.get_efficiency()
+            n.base_energy_cost, n.max_retries, n.provider
         except Exception:
             self.ctx.count("reads_raised")
+
+    def reconfigure(self, i, k_, v):
+        """class A / D: public settings of the nucleus and of the organelle assigned between two calls; duplicates"""
+        nucleus, mito = self.nuclei[i], self.mitos[i]
+        self.ctx.count("reconfigured_between_calls")
+        if k_ == "provider":
+            nucleus.provider = self._provider(i, {"provider": v})
+            self.providers[i], self.kinds[i] = nucleus.provider, v
+        elif k_ in ("base_energy_cost", "max_retries"):
+            setattr(nucleus, k_, v)
+        elif k_ == "mito.silent":
+            mito.silent = silent_value(v, self.flip)
+        elif k_ in ("mito.timeout", "mito.max_ros"):
+            setattr(mito, k_.split(".")[1], v)
+        elif k_ == "dup":
+            self.nuclei[i] = duplicate(self.ctx, nucleus, v)
+            self.providers[i] = self.nuclei[i].provider
+        elif k_ == "dup_mito":
+            self.mitos[i] = duplicate(self.ctx, mito, v)
+        elif k_ == "fresh_mito":
+            self.fresh_mito(i)
+        else:
+            raise AssertionError(k_)
+
+    def plain_frame(self, i):
+        return Frame(inst=i, prog={"calls_per_round": [0], "forever": False}, cwt=0, complete=0, tool_runs=0, requested=0, budget=0, nest=None,
+                     final_raised=False, unregistered=None)
 
     # -- one call
     def do_call(self, call):
         from operon_ai.providers import ProviderConfig
         ctx = self.ctx
         i = call["inst"]
-        nucleus, mito, cfg = self.nuclei[i], self.mitos[i], self.script["instances"][i]
+        cfg = self.script["instances"][i]
+        for k_, v in (call.get("set") or {}).items():
+            self.reconfigure(i, k_, v)
+        nucleus, mito = self.nuclei[i], self.mitos[i]
+        guard_locks(ctx, nucleus, mito)
         for m in call.get("maint") or ():
             ctx.count("maintenance_calls")
             if m == "clear_log":
                 nucleus.clear_log()
+            elif m == "transcribe":
+                # the plain entry point of the same nucleus between two tool loops (positional config, explicit energy cost)
+                self.stack.append(self.plain_frame(i))
+                try:
+                    nucleus.transcribe("plain question", None, 3)
+                    nucleus.transcribe(prompt="plain question", config=ProviderConfig(), energy_cost=0)
+                except Exception:
+                    ctx.count("maintenance_raised")
+                finally:
+                    self.stack.pop()
             elif m == "repair":
                 mito.repair()
             elif m == "reregister" and cfg["tools"]:
@@ -1079,6 +1620,12 @@ class ToolRig:
             kw["auto_execute"] = call["auto"]
         if call.get("config"):
             kw["config"] = ProviderConfig(temperature=0.0, max_tokens=call["config"], timeout_seconds=call.get("config_timeout", 30.0))
+        prompt = call["prompt"]
+        if self.kinds[i] == "mock":
+            prompt = "please use probe. " + prompt          # the library's mock asks for a tool whose name the prompt mentions
+        args = [prompt, mito]
+        if call.get("positional") and "config" in kw and "max_iterations" in kw:
+            args += [kw.pop("config"), kw.pop("max_iterations")]      # the same call written positionally
         if i in self.raised_before:
             ctx.count("calls_after_a_raise")
         ctx.count("session_tool_calls")
@@ -1087,23 +1634,23 @@ class ToolRig:
         self.stack.append(fr)
         result, raised = None, None
         try:
-            result = nucleus.transcribe_with_tools(call["prompt"], mito, **kw)
+            result = nucleus.transcribe_with_tools(*args, **kw)
         except Abandon:
             ctx.count("astronomic_budget_calls_abandoned")
             raised = "abandoned"
         except Runaway as e:
             viol(ctx, "tool-round-budget", "tool loop ran away: %s with max_iterations=%r" % (e, mi), desc)
             raised = "runaway"
-        except tuple(EXC_CLASSES) as e:
-            if not is_ours(e):
-                viol(ctx, "tool-loop-raises", "transcribe_with_tools raised %s on its own" % type(e).__name__, dict(desc, error=repr(e)))
-                raised = "own:" + type(e).__name__
-            else:
+        except locks.WouldHang as e:
+            viol(ctx, "tool-loop-self-deadlock", "transcribe_with_tools would block for ever on %s, which its own thread already holds" % e.lock_name, desc)
+            raised = "would-hang"
+        except Exception as e:
+            if is_ours(e):
                 raised = "injected"
                 self.raised_before.add(i)
-        except Exception as e:
-            viol(ctx, "tool-loop-raises", "transcribe_with_tools raised %s" % type(e).__name__, dict(desc, error=repr(e)))
-            raised = "own:" + type(e).__name__
+            else:
+                viol(ctx, "tool-loop-raises", "transcribe_with_tools raised %s on its own" % type(e).__name__, dict(desc, error=repr(e)))
+                raised = "own:" + type(e).__name__
         finally:
             self.stack.pop()
         if self.reads:
@@ -1125,12 +1672,12 @@ class ToolRig:
             viol(ctx, mech, "plain completion called %d times in one tool loop" % fr.complete, desc)
         if fr.tool_runs > fr.requested:
             viol(ctx, "tool-executed-more-than-requested", "tool bodies ran %d times for %d requested calls" % (fr.tool_runs, fr.requested), desc)
-        if call.get("auto") is False and fr.tool_runs:
+        if call.get("auto") is not None and not call["auto"] and fr.tool_runs:
             viol(ctx, "tool-auto-execute-off", "tool ran although auto_execute=False", desc)
         if raised is None:
             if fr.cwt == fr.budget and fr.complete == 1 and fr.budget > 0:
                 ctx.count("tool_loop_exhausted")
-            if not isinstance(result, self.LLMResponse):
+            if not (isinstance(result, self.LLMResponse) or (fr.prog.get("duck_response") and isinstance(result, DuckResponse))):
                 viol(ctx, "tool-return-type", "returned %r" % (result,), desc)
         if fr.cwt >= 2 or (fr.cwt >= 1 and fr.tool_runs >= 1):
             ctx.nontrivial(("tool-s", repr(desc["config"]), call.get("max_iter"), repr(call["prog"]), fr.cwt, fr.complete, fr.tool_runs))
@@ -1155,8 +1702,17 @@ TOOLSETS = [
     [{"name": "probe", "desc": "needs a capability", "caps": True}],
     [{"name": "probe"}, {"name": "other"}, {"name": "PROBE"}],
     [],
+    [{"name": "probe", "falsy": True}, {"name": "a.*b(c)[d]", "desc": "{0} 100% %s"}, {"name": "two\nlines"}, {"name": "nul\x00name"}, {"name": "{x}%d"}],
+    [{"name": Str("probe"), "desc": Str("a str subclass"), "falsy": True}],
 ]
-NAMESETS = [None, None, None, ["probe"], ["Probe"], ["probe", "Probe"], ["missing_tool"], ["probe", "missing_tool"], ["PROBE", "other", "probe"], [""]]
+NAMESETS = [None, None, None, ["probe"], ["Probe"], ["probe", "Probe"], ["missing_tool"], ["probe", "missing_tool"], ["PROBE", "other", "probe"], [""],
+            ["a.*b(c)[d]", "probe"], ["two\nlines", "nul\x00name", "{x}%d"], ["a.*b", "probe"], [Str("probe")]]
+
+
+TOOL_SETTINGS = ["provider", "base_energy_cost", "max_retries", "mito.silent", "mito.timeout", "mito.max_ros", "dup", "dup_mito", "fresh_mito"]
+TOOL_SETTING_VALUES = {"provider": ["cwt", "cwt", "plain", "mock"], "base_energy_cost": [0, 1, -5, 2 ** 60, True], "max_retries": [0, 1, 100, False],
+                       "mito.silent": SILENTS, "mito.timeout": [0, 0.0, 1e-9, 5.0, Fraction(1, 2)], "mito.max_ros": [0, 0.0, 0.1, 1e9],
+                       "dup": ["copy", "deepcopy", "replace"], "dup_mito": ["copy", "deepcopy"], "fresh_mito": [True]}
 
 
 def _tool_prog(rng, max_iter, nested=False):
@@ -1168,8 +1724,8 @@ def _tool_prog(rng, max_iter, nested=False):
         prog["forever"] = rng.random() < 0.5
     if rng.random() < 0.5:
         prog["calls_per_round"] = [max(1, c) for c in prog["calls_per_round"]]
-    prog["final"] = rng.choice(["final", "final", "empty", "space", "ws", "long", "braces", "tool-ish"])
-    prog["round_text"] = rng.choice(["final", "final", "empty", "space", "ws", "braces"])
+    prog["final"] = rng.choice(["final", "final", "empty", "space", "ws", "long", "braces", "tool-ish", "hostile"])
+    prog["round_text"] = rng.choice(["final", "final", "empty", "space", "ws", "braces", "hostile"])
     nm = rng.choice(NAMESETS)
     if nm:
         prog["names"] = nm
@@ -1177,11 +1733,18 @@ def _tool_prog(rng, max_iter, nested=False):
     if r < 0.12:
         prog["const"] = True
     elif r < 0.2:
-        prog["ids"] = rng.choice(["same", "empty"])
+        prog["ids"] = rng.choice(["same", "empty", "hostile"])
     elif r < 0.26:
         prog["badargs"] = True
+    if rng.random() < 0.12:
+        prog["container"] = rng.choice(["tuple", "iter", "none-when-empty"])
     if rng.random() < 0.08:
-        prog["provider_raises_round"] = rng.randint(1, 4)
+        prog["duck_response"] = True
+    if rng.random() < 0.08:
+        prog["duck_calls"] = True
+    if rng.random() < 0.08:
+        # class F: the provider fails in some round, or exactly in the last round the budget allows
+        prog["provider_raises_round"] = rng.randint(1, 4) if rng.random() < 0.6 or big or not max_iter else int(max_iter)
     if rng.random() < 0.08:
         prog["final_raises"] = True
     if rng.random() < 0.45:
@@ -1193,7 +1756,8 @@ def gen_tool_script(rng):
     ninst = rng.choice([1, 1, 2, 2, 3])
     insts = []
     for _ in range(ninst):
-        insts.append({"provider": "plain" if rng.random() < 0.06 else "cwt", "tools": rng.choice(TOOLSETS), "mito_silent": rng.random() < 0.5,
+        insts.append({"provider": rng.choice(["plain", "mock", "mock"]) if rng.random() < 0.09 else "cwt", "tools": rng.choice(TOOLSETS),
+                      "mito_silent": rng.choice(SILENTS), "gc": rng.random() < 0.01,
                       "timeout_seconds": rng.choice([None, 0, 0.0, 1e-9, 5.0, 1e9]), "max_ros": rng.choice([None, 0, 0.0, 0.1, 1.0, 1e9]),
                       "allowed": rng.choice([None, None, None, "empty"]),
                       "base_energy_cost": rng.choice([None, 0, 1, 10, -5, 2 ** 60]), "max_retries": rng.choice([None, 0, 1, 3, 100])})
@@ -1208,14 +1772,19 @@ def gen_tool_script(rng):
         c = {"inst": i, "prompt": rng.choice(PROMPTS), "max_iter": mi, "prog": _tool_prog(rng, mi)}
         r = rng.random()
         if r < 0.12:
-            c["auto"] = False
+            c["auto"] = rng.choice([False, False, 0, "", 0.0])        # flags as users write them
         elif r < 0.2:
-            c["auto"] = True
+            c["auto"] = rng.choice([True, True, 1, "yes"])
         if rng.random() < 0.2:
             c["config"] = rng.choice([1, 1024])
             c["config_timeout"] = rng.choice([0, 0.0, 1e-9, 0.25, 30.0, 3 * 86400.0])
         if rng.random() < 0.25:
-            c["maint"] = [rng.choice(["clear_log", "repair", "reregister", "drop_tool"])]
+            c["maint"] = [rng.choice(["clear_log", "repair", "reregister", "drop_tool", "transcribe"])]
+        if calls and rng.random() < 0.3:
+            k_ = rng.choice(TOOL_SETTINGS)
+            c["set"] = {k_: rng.choice(TOOL_SETTING_VALUES[k_])}
+        if rng.random() < 0.3:
+            c["positional"] = True
         if rng.random() < 0.3 and (mi is not None and mi < 17):
             j = i if rng.random() < 0.5 else rng.randrange(ninst)
             mj = rng.randint(0, 3)
@@ -1239,12 +1808,26 @@ def _under_clock(runner):
         import operon_ai.healing.chaperone_loop as m5
         from rv.vclock import VClock, patched
         ctx.count("sessions_under_virtual_clock")
+        if any(x < 0 for x in steps):
+            ctx.count("sessions_with_clock_set_back")
         _CLOCK[:] = [VClock(), 0, tuple(steps)]
+        zone, old_tz = script.get("tz"), os.environ.get("TZ")
         try:
+            if zone:
+                # class C: local time far from UTC (now() and utcnow() disagree by the offset) for this session only
+                ctx.count("sessions_in_foreign_time_zone")
+                os.environ["TZ"] = zone
+                _time.tzset()
             with patched(_CLOCK[0], m1, m2, m3, m4, m5):
                 return runner(ctx, script, variant)
         finally:
             _CLOCK[:] = [None, 0, ()]
+            if zone:
+                if old_tz is None:
+                    os.environ.pop("TZ", None)
+                else:
+                    os.environ["TZ"] = old_tz
+                _time.tzset()
     return run
 
 
@@ -1257,6 +1840,10 @@ def case_session(ctx, rng, kind):
     script = GENS[kind](rng)
     if rng.random() < 0.35:
         script["clock"] = [rng.choice(CLOCK_STEPS) for _ in range(rng.randint(1, 6))]
+        if rng.random() < 0.3:
+            script["clock"][rng.randrange(len(script["clock"]))] = rng.choice(BACK_STEPS)
+        if rng.random() < 0.4:
+            script["tz"] = rng.choice(ZONES)
     try:
         base = RUNNERS[kind](ctx, script)
     except ConfigRejected:
